@@ -215,7 +215,8 @@ fn decode_op_inner(r: &Rec, len: usize, kind: KindId, mix: CMix, faulty: bool) -
                 Op::ShrinkTo(idx(r.u16(2)))
             }
         }
-        31 => Op::Splice(range, vals(r, n_small % 6), r.b(8) as usize % 5),
+        // third field: elements taken from the returned iterator (% 5) and the replacement's size_hint form (/ 5)
+        31 => Op::Splice(range, vals(r, n_small % 6), r.b(8) as usize % 20),
         _ => {
             let _ = kind;
             Op::SplitOff(range)
@@ -449,7 +450,7 @@ fn model_apply(m: &mut Vec<u32>, op: &Op, rev: bool) -> MRes {
             None => MRes::Panic,
             Some((s, e)) => {
                 let removed: Vec<u32> = m.splice(s..e, vs.iter().copied()).collect();
-                MRes::Vals(removed.into_iter().take(*consume).collect())
+                MRes::Vals(removed.into_iter().take(*consume % 5).collect())
             }
         },
     }
@@ -1565,9 +1566,23 @@ fn helper_round<'a, T: Elem + Clone + PartialEq + 'a, A: MutBumpAllocatorCoreSco
             let pad = n % 700;
             let what = format!("alloc_fmt_mut / alloc_cstr_fmt_mut ({piece:?}, width {pad})");
             st.note(|| what.clone());
-            let expect = format!("{piece}{n}-{piece:>pad$}");
+            let mut expect = format!("{piece}{n}-{piece:>pad$}");
             let cstr = r0.b(10) & 1 == 1;
+            // format_args! without arguments takes the `as_str()` shortcut (a plain alloc_str / alloc_cstr_from_str)
+            let literal = r0.b(11) % 5 == 0;
+            if literal {
+                expect = "lit\0eral é".to_string();
+            }
             let res = catch_unwind(AssertUnwindSafe(|| {
+                if literal {
+                    return if cstr {
+                        let c = if try_ { arena.try_alloc_cstr_fmt_mut(format_args!("lit\0eral é")).ok()? } else { arena.alloc_cstr_fmt_mut(format_args!("lit\0eral é")) };
+                        Some((c.as_ptr() as usize, c.to_bytes_with_nul().to_vec()))
+                    } else {
+                        let b = if try_ { arena.try_alloc_fmt_mut(format_args!("lit\0eral é")).ok()? } else { arena.alloc_fmt_mut(format_args!("lit\0eral é")) };
+                        Some((b.as_ptr() as usize, b.as_bytes().to_vec()))
+                    };
+                }
                 if cstr {
                     let c = if try_ { arena.try_alloc_cstr_fmt_mut(format_args!("{piece}{n}-{piece:>pad$}")).ok()? } else { arena.alloc_cstr_fmt_mut(format_args!("{piece}{n}-{piece:>pad$}")) };
                     Some((c.as_ptr() as usize, c.to_bytes_with_nul().to_vec()))
